@@ -15,6 +15,8 @@ import vlib, wlint
 from vlib import MachineryFault
 
 LEVEL = "model_checking"
+D5 = '{"acl", "table", "backend", "penaltybox", "ratecounter"}'
+D2 = '{"acl", "penaltybox"}'
 
 
 def run(ctx):
@@ -46,12 +48,12 @@ def run(ctx):
         raise MachineryFault("Include.tla: %s violated on the model (a lead, not a verdict); see %s" % (inc.violated, inc.out_path))
     runs = [inc]
     if quick:
-        confs = [("passes-2users", {"NUsers": "2", "MaxEdges": "8", "Sample": "0"}),
-                 ("passes-3users-sample", {"NUsers": "3", "MaxEdges": "6", "Sample": "1500"})]
+        confs = [("passes-2users", {"NUsers": "2", "MaxEdges": "8", "Sample": "0", "Decls": D5}),
+                 ("passes-3users-sample", {"NUsers": "3", "MaxEdges": "6", "Sample": "1500", "Decls": D2})]
     else:
-        confs = [("passes-2users", {"NUsers": "2", "MaxEdges": "8", "Sample": "0"}),
-                 ("passes-3users", {"NUsers": "3", "MaxEdges": "4", "Sample": "0"}),
-                 ("passes-4users-sample", {"NUsers": "4", "MaxEdges": "7", "Sample": "6000"})]
+        confs = [("passes-2users", {"NUsers": "2", "MaxEdges": "8", "Sample": "0", "Decls": D5}),
+                 ("passes-3users", {"NUsers": "3", "MaxEdges": "3", "Sample": "0", "Decls": D2}),
+                 ("passes-4users-sample", {"NUsers": "4", "MaxEdges": "7", "Sample": "4000", "Decls": D2})]
     for tag, defs in confs:
         m = ctx.tlc("LintPasses", defines=defs, timeout=2400, tag=tag)
         if m.violated:
